@@ -262,7 +262,7 @@ fn main() {
     let mut rng = Rng::new(args.seed);
     probes(&mut model, &mut rep);
     cycle_probe(&mut rep);
-    for k in 0..args.n(2500, 60000) {
+    for k in 0..args.n(20000, 400000) {
         let mut r = rng.fork();
         run_history(&mut r, k, &mut model, &mut rep);
     }
